@@ -17,6 +17,7 @@ type Val struct {
 	Tup []Val
 	Loc *Loc // set when the value is a statically known address
 	Nil bool // untyped nil literal
+	Cell bool // a captured variable: T is the address of its cell, a name in a contract means its current content
 }
 
 // Loc describes a memory location: element Idx of heap array Arr (and position Pos inside a slice backing array).
@@ -108,6 +109,14 @@ func (g *Gen) fieldArr(t types.Type, name string) (arr string, fty types.Type, o
 		}
 		return "G!" + tn + "!" + name, ty, true
 	}
+	// ghost fields declared on an embedded interface (AuthSession embeds Session)
+	if it, ok := base.Underlying().(*types.Interface); ok {
+		for i := 0; i < it.NumEmbeddeds(); i++ {
+			if arr, fty, ok := g.fieldArr(it.EmbeddedType(i), name); ok {
+				return arr, fty, true
+			}
+		}
+	}
 	return "", nil, false
 }
 
@@ -143,8 +152,23 @@ func (g *Gen) selectField(h *Heap, base Val, name string) Val {
 		return Val{T: fmt.Sprintf("(fref %s %d)", idx, g.fieldID(g.W.typeName(bt), name)), Ty: fty}
 	}
 	s := sortOf(fty)
-	return Val{T: fmt.Sprintf("(select %s %s)", g.arr(h, arr, s), idx), Ty: fty,
-		Loc: &Loc{Arr: arr, Sort: s, Idx: idx, Ty: fty}}
+	term := fmt.Sprintf("(select %s %s)", g.arr(h, arr, s), idx)
+	// heap well-formedness at function entry: references stored in the heap are allocated
+	if s == "Int" && strings.HasPrefix(arr, "F!") {
+		switch fty.Underlying().(type) {
+		case *types.Pointer, *types.Map, *types.Chan:
+			if _, modified := h.cur[arr]; !modified {
+				if _, am := h.cur["alloc"]; !am && !strings.Contains(term, "q!") && !strings.Contains(term, "dummy!") {
+					key := "wf:" + term
+					if !g.assumed[key] {
+						g.assumed[key] = true
+						g.assume(fmt.Sprintf("(or (= %s 0) (select %s %s))", term, g.arr(h, "alloc", "Bool"), term))
+					}
+				}
+			}
+		}
+	}
+	return Val{T: term, Ty: fty, Loc: &Loc{Arr: arr, Sort: s, Idx: idx, Ty: fty}}
 }
 
 func elemArrName(sort string) string { return "E!" + sortTag(sort) }
@@ -180,6 +204,9 @@ func (g *Gen) tr(e Expr, env *Env) Val {
 		return Val{T: "0", Ty: types.Typ[types.UntypedNil], Nil: true}
 	case EIdent:
 		if v, ok := env.vars[x.Name]; ok {
+			if v.Cell {
+				return g.loadCell(env.heap, v)
+			}
 			return v
 		}
 		if env.lookup != nil {
@@ -342,6 +369,28 @@ func (g *Gen) tr(e Expr, env *Env) Val {
 	}
 	trFail("cannot translate %s", exprString(e))
 	return Val{}
+}
+
+// loadCell reads the current content of a captured variable.
+func (g *Gen) loadCell(h *Heap, v Val) Val {
+	pt := v.Ty.Underlying().(*types.Pointer)
+	et := pt.Elem()
+	s := sortOf(et)
+	name := "C!" + sortTag(s)
+	return Val{T: fmt.Sprintf("(select %s %s)", g.arr(h, name, s), v.T), Ty: et,
+		Loc: &Loc{Arr: name, Sort: s, Idx: v.T, Ty: et}}
+}
+
+func isCellType(t types.Type) bool {
+	pt, ok := t.Underlying().(*types.Pointer)
+	if !ok {
+		return false
+	}
+	switch pt.Elem().Underlying().(type) {
+	case *types.Struct, *types.Array:
+		return false
+	}
+	return true
 }
 
 func (w *World) allImports() []*types.Package {
@@ -679,6 +728,19 @@ func (g *Gen) trCall(x ECall, env *Env) Val {
 		return Val{T: fmt.Sprintf("(select (select %s %s) %s)", g.arr(env.heap, has, "(Array "+ks+" Bool)"), m.T, k.T), Ty: tyBool}
 	case "alloc":
 		return Val{T: fmt.Sprintf("(select %s %s)", g.arr(env.heap, "alloc", "Bool"), arg(0).T), Ty: tyBool}
+	case "wasalloc":
+		h := env.old
+		if h == nil {
+			h = env.heap
+		}
+		v := arg(0)
+		ref := v.T
+		if sortOf(v.Ty) == "Iface" {
+			ref = "(i-val " + v.T + ")"
+		} else if sortOf(v.Ty) == "Slice" {
+			ref = "(s-arr " + v.T + ")"
+		}
+		return Val{T: fmt.Sprintf("(select %s %s)", g.arr(h, "alloc", "Bool"), ref), Ty: tyBool}
 	case "min":
 		a, b := arg(0), arg(1)
 		return Val{T: fmt.Sprintf("(ite (<= %s %s) %s %s)", a.T, b.T, a.T, b.T), Ty: tyInt}
